@@ -34,6 +34,9 @@ def make_basis(rng, natom, conventions, scheme="segmented", lmax=2, pure=True, n
     if scheme in ("sp", "generalized"):
         exps = [1.31, 0.42]
         shells.append(Shell(0, [0, 1], ["c", "c"], exps, [[0.6, 0.4], [0.5, 0.7]]))
+    if scheme == "ps":
+        # a two-contraction shell with the p contraction first: not an SP shell, it has to be segmented like any generalized one
+        shells.append(Shell(0, [1, 0], ["c", "c"], [1.31, 0.42], [[0.6, 0.4], [0.5, 0.7]]))
     if scheme == "generalized":
         exps = [2.2, 0.7]
         shells.append(Shell(natom - 1, [0, 0, 1], ["c", "c", "c"], exps, [[0.6, 0.2, 0.5], [0.3, 0.8, 0.6]]))
@@ -100,6 +103,10 @@ def make_mo(rng, obasis, atcoords, kind="restricted", occ="closed", norb=None):
         occs[:3] = [1.0, 0.0, 1.0]
     if occ == "nonaufbau_ubeta" and nbb >= 3:
         occs[na: na + 3] = [1.0, 0.0, 1.0]
+    if occ == "fractional_ubeta_window" and na >= 3 and nbb >= 3:
+        # more alpha than beta electrons, and a fractional beta occupation in one of the levels only alpha electrons fill
+        occs[:3] = 1.0
+        occs[na: na + 3] = [1.0, 0.3, 0.0]
     energies = np.concatenate([np.sort([round(rng.uniform(-2, 2), 5) for _ in range(na)]),
                                np.sort([round(rng.uniform(-2, 2), 5) for _ in range(nbb)])])
     return MolecularOrbitals("unrestricted", na, nbb, occs, np.concatenate([ca, cb], axis=1), energies)
@@ -192,6 +199,8 @@ def make(fmt, rng, variant="plain", natom=None):
     pure = fmt in ("fchk", "molden", "molekel")
     if variant == "convertible":
         scheme = "generalized"
+    if variant == "convertible_ps":
+        scheme = "ps"
     if variant == "fatal_pure":
         pure = True
     obasis = make_basis(rng, natom, conv, scheme, lmax=2, pure=pure, nshell=max(natom + 1, 3))
@@ -206,7 +215,7 @@ def make(fmt, rng, variant="plain", natom=None):
         occ = "nonaufbau"
     if variant in ("fatal_nonaufbau_beta", "fatal_fractional"):
         occ = variant[6:]
-    if variant in ("fatal_nonaufbau_ualpha", "fatal_nonaufbau_ubeta"):
+    if variant in ("fatal_nonaufbau_ualpha", "fatal_nonaufbau_ubeta", "fatal_fractional_ubeta_window"):
         occ = variant[6:]
         kind = "unrestricted"
     if variant == "fatal_generalized":
@@ -222,8 +231,8 @@ def make(fmt, rng, variant="plain", natom=None):
 
 
 VARIANTS = {
-    "fchk": ["plain", "convertible", "fatal_generalized", "fatal_nonaufbau", "fatal_nonaufbau_beta", "fatal_fractional",
-             "fatal_nonaufbau_ualpha", "fatal_nonaufbau_ubeta"],
+    "fchk": ["plain", "convertible", "convertible_ps", "fatal_generalized", "fatal_nonaufbau", "fatal_nonaufbau_beta", "fatal_fractional",
+             "fatal_nonaufbau_ualpha", "fatal_nonaufbau_ubeta", "fatal_fractional_ubeta_window"],
     "molden": ["plain", "convertible", "convertible_amb", "fatal_generalized"],
     "molekel": ["plain", "convertible", "convertible_amb", "fatal_generalized"],
     "wfn": ["plain", "convertible", "convertible_amb", "fatal_generalized", "fatal_pure"],
